@@ -368,7 +368,13 @@ def r2_containment(ctx):
     def truth_under(e, cls, node, depth=0):
         """truth value of test expression e when the caught exception is an instance of exactly `cls` ('Other' = none of the library errors); None if undecided"""
         if isinstance(e, ast.Call) and is_name(e.func, 'isinstance') and len(e.args) == 2 and is_name(e.args[0], exname):
-            names = {x.attr if isinstance(x, ast.Attribute) else x.id for x in ast.walk(e.args[1]) if isinstance(x, (ast.Attribute, ast.Name))}
+            cexpr = e.args[1]
+            if isinstance(cexpr, ast.Name):
+                # the classes held in a local (`tolerated = (A, B)`)
+                ds_ = [d for d in rd.defs_of(cexpr.id) if isinstance(d.value, ast.AST)]
+                if len(ds_) == 1 and isinstance(ds_[0].value, (ast.Tuple, ast.Attribute, ast.Name)):
+                    cexpr = ds_[0].value
+            names = {x.attr if isinstance(x, ast.Attribute) else x.id for x in ast.walk(cexpr) if isinstance(x, (ast.Attribute, ast.Name))}
             if 'Exception' in names:
                 return True
             return cls in names
